@@ -644,8 +644,18 @@ def check_eigen_pipeline(ctx, state, n, rng):
     for j in range(len(L)):
         r = (A @ Y[:, j] - L[j] * (M @ Y[:, j]))[I]
         res = max(res, float(np.max(np.abs(r))) / max(1.0, abs(L[j])))
-    state['eig_maxdisc'] = max(state['eig_maxdisc'], res)
+    state['eig_maxdisc'] = float(max(state['eig_maxdisc'], res))
     ctx.count(('eig_pipeline', n, D), nontrivial=True)
+    if n - len(D) >= 8:
+        # the library's default eigensolver (ARPACK shift-invert, k = 5) through the same expansion
+        L2, Y2 = solve(*condense(A, M, D=Darr))
+        for j in range(len(L2)):
+            r = (A @ Y2[:, j] - L2[j] * (M @ Y2[:, j]))[I]
+            res = max(res, float(np.max(np.abs(r))) / max(1.0, abs(L2[j])) / max(1.0, float(np.max(np.abs(Y2[:, j])))))
+        state['eig_maxdisc'] = float(max(state['eig_maxdisc'], res))
+        if Y2.shape[0] != n or not np.all(Y2[D, :] == 0):
+            ctx.fail('condense_eig:default-solver', 'solve(*condense(A, M, D=D)) with the default eigensolver: eigenvectors not zero on D '
+                     'or of the wrong length', {'n': n, 'D': D})
     if res > 1e-8 or not np.all(Y[D, :] == 0):
         ctx.fail('condense_eig:pipeline', f'expanded eigenvectors violate the kept rows (residual {res:.2e}) or are non-zero on D',
                  {'n': n, 'A': A.toarray().tolist(), 'M': M.toarray().tolist(), 'D': D})
@@ -697,7 +707,7 @@ def _gen_random(ctx, cases, state):
             if it % 4 == 0:
                 check_penalize_limit(ctx, state, n, csr, b, x, D, rng, zero_diag=True)
     for it in range(ctx.n(15, 80)):
-        check_eigen_pipeline(ctx, state, rng.randint(3, nmax), rng)
+        check_eigen_pipeline(ctx, state, rng.randint(3, nmax) if it % 3 else rng.randint(10, 14), rng)
     # positions: the generated arithmetic vs the implementation's lines executed verbatim is not observable directly;
     # what is observable is which stored values become zero: all-nonzero data, diag irrelevant
     for it in range(ctx.n(60, 300)):
